@@ -489,6 +489,61 @@ def _source_address_replay_plan(ob):
     return 'script_ext', {'driver': 'map_v4', 'args': {'addrs': cands}}, lambda o: bool(o.get('mismatch')) or bool(o.get('panicked'))
 
 
+def spec_connector_features(ck):
+    """"if the selected upstream cannot carry the requested feature the client is refused and no upstream connection is opened":
+    the dispatcher asks `has_feature`, i.e. the list `features()` returns.  SOCKS4 has no UDP ASSOCIATE (its only commands are
+    CONNECT and BIND): a SOCKS connector configured for version 4 must not list the UDP features -- for either version its init
+    accepts (4, 5), whatever else is configured."""
+    cands = [f for f in ck.db.by_method.get('features', []) if f.params and 'SocksConnector' in f.params[0][1]]
+    if len(cands) != 1:
+        ck.add('SocksConnector::features', 'undecided', 'anchor_missing: %d candidates' % len(cands))
+        return
+    fn = ck.target(cands[0])
+    fields = ck.si.structs.get('SocksConnector', [])
+    if 'version' not in fields:
+        ck.add('SocksConnector::features', 'undecided', 'anchor_missing: SocksConnector has no field `version`')
+        return
+    ex = ck.engine(loop_bound=6)
+    ex.benign_havoc = BENIGN
+    st = State()
+    ver = z3.BitVec('configured_version', 8)
+    ex.assume(st, z3.Or(ver == BV(4, 8), ver == BV(5, 8)))
+    me = Agg('SocksConnector', dict((i, Int(ver, 8, False) if n == 'version' else Opaque(n, 'cfg_' + n)) for i, n in enumerate(fields)))
+    ex.inputs = {'configured_version': ver}
+    fe = ex.si.enums['Feature']
+    finals = ex.call_fn(st, fn, [Ref(st.alloc(me), ())])
+    n = 0
+    for s in finals:
+        if s.status != 'returned':
+            continue
+        v = s.ret
+        for _ in range(3):
+            if isinstance(v, Ref):
+                v = ex.deref(s, v)
+        if not (isinstance(v, SeqV) and v.items is not None):
+            ck.add('C02/connector-features/shape', 'inconclusive', 'features() did not return an explicit list')
+            continue
+        n += 1
+        names = []
+        for it in v.items:
+            it = ex.deref(s, it) if isinstance(it, Ref) else it
+            d = it.discr if isinstance(it, Agg) else None
+            names.append(fe[d] if isinstance(d, int) and d < len(fe) else None)
+        udp = any(x in ('UdpForward', 'UdpBind') for x in names) or any(x is None for x in names)
+        ex.prove(s, 'C02/connector-features/a-socks4-upstream-does-not-advertise-udp', z3.Implies(z3.BoolVal(udp), ver == BV(5, 8)))
+        ex.prove(s, 'C02/connector-features/a-socks-upstream-carries-tcp', 'TcpForward' in names)
+    if not n:
+        ck.add('C02/connector-features/reachability', 'vacuous', 'SocksConnector::features never returned in the model')
+    for f in ex.findings:
+        if not hasattr(f, 'target'):
+            f.target = 'SocksConnector::features'
+    ck.plans.append(lambda ob: ('socksconn', [{'driver': 'features', 'args': {'version': v_}} for v_ in (4, 5)],
+                                lambda o: (o.get('version') == 4 and (o.get('udp_forward') or o.get('udp_bind'))) or o.get('tcp') is False)
+                    if (ob.target or '') == 'SocksConnector::features' else None)
+    ck.absorb(ex, 'SocksConnector::features', finals)
+    ck.bounds['connector-features'] = 'the SOCKS connector, version 4 or 5, any other configuration'
+
+
 def cidr_replay_plan(ob):
     f = ob.finding
     if f is None or not ob.label.startswith('C02/cidr_match/'):
